@@ -124,8 +124,8 @@ def main():
         k0 = rng.uniform(-1, 1, size=nk)
         c = rng.uniform(-1, 1, size=nk)
         prob = dict(fam="linear", A=A.tolist(), c=c.tolist(), k0=k0.tolist(), val=(A @ sol + c).tolist(), tol=[1e-6] * nk,
-                    tw=[rac.rng.choice([None, 2.0, 0.5]) for _ in range(nk)], lim=[[-50.0, 50.0] if rac.rng.random() < 0.5 else None for _ in range(nk)],
-                    w=[rac.rng.choice([None, 2.0, 0.5, 10.0]) for _ in range(nk)], ms=[None] * nk, step=1e-7, kact=[True] * nk, tact=[True] * nk)
+                    tw=[rac.rng.choice([None, 2.0, 0.5]) for _ in range(nk)], lim=[rac.rng.choice([None, [-50.0, 50.0], [-50, 50], [-7, 9]]) for _ in range(nk)],     # (limits given as floats or as plain integers)
+                    w=[rac.rng.choice([None, 2.0, 0.5, 10.0, 4.0]) for _ in range(nk)], ms=[None] * nk, step=1e-7, kact=[True] * nk, tact=[True] * nk)
         for broyden in (False, True):
             scr = PRELUDE + G.SRC + SRC + f"prob = {prob!r}\nopt, d, act = build(prob)\nopt.step(1, broyden={broyden})\nkn = np.array(knobs_of(d, prob)); sol = np.array({sol.tolist()!r})\n" \
                 "print(kn, sol)\nassert np.allclose(kn, sol, rtol=1e-5, atol=1e-5), (kn, sol)\nopt.solve()\n"
@@ -144,8 +144,39 @@ def main():
                 rac.fail(f"one-step {n_} {broyden}", f"C16 linear {nk}-knob problem (cond {np.linalg.cond(A):.1f}, weights {prob['w']}), broyden={broyden}: after one "
                          f"step knobs {kn}, solution {sol.tolist()}; solve ok: {ok2}", scr, "JacobianSolver.step")
                 break
+    rac.section("step-truncation", "linear problems whose second response is 1e-16..1e-15 of the first (a direction below the default relative cut "
+                "1e-14 of SVD.lstsq): ONE Optimize.step() with rcond / sing_val_cutoff left at their defaults moves the knobs by the truncated "
+                "minimum-norm least-squares step of the masked Jacobian -- the reference pseudo-inverse with the 1e-14 cut --, and an explicit "
+                "rcond is honoured the same way", "40 quick / 400 thorough", exhaustive=False)
+    for n_ in range(40 if quick else 400):
+        if rac.out_of_time(0.7):
+            break
+        eps = 10 ** rac.rng.uniform(-16, -15)
+        row0 = rng.uniform(0.5, 2.0, size=2) * rng.choice([-1, 1], size=2)
+        row1 = eps * rng.uniform(0.5, 2.0, size=2) * np.array([1.0, -1.0])
+        A = np.array([row0, row1])
+        k0 = np.zeros(2) if n_ % 2 == 0 else rng.uniform(-1, 1, size=2)
+        val = np.array([float(rng.uniform(1, 3)), 0.0])
+        prob = dict(fam="linear", A=A.tolist(), c=[0.0, 0.0], k0=k0.tolist(), val=val.tolist(), tol=[1e-9, 1e-6], tw=[None, None], lim=[None, None],
+                    w=[None, None], ms=[None, None], step=1e-6, kact=[True, True], tact=[True, True])
+        kw = rac.rng.choice([{}, {}, {"rcond": 1e-12}])
+        want = k0 - ref_lstsq(A, A @ k0 - val, kw.get("rcond", 1e-14), None)
+        scr = PRELUDE + G.SRC + SRC + f"prob = {prob!r}\nopt, d, act = build(prob)\nopt.step(1, **{kw!r})\nkn = np.array(knobs_of(d, prob)); want = np.array({want.tolist()!r})\n" \
+            "print(kn, want)\nassert np.allclose(kn, want, rtol=1e-4, atol=1e-4), (kn, want)\n"
+        try:
+            opt, d, act = build(prob)
+            opt.step(1, **kw)
+            kn = np.array(knobs_of(d, prob))
+            ok = np.allclose(kn, want, rtol=1e-4, atol=1e-4)
+        except Exception as ex:     # noqa
+            ok, kn = False, repr(ex)
+        rac.case(("step-truncation", json.dumps(prob), json.dumps(kw)), sample=dict(eps=eps, start=k0.tolist(), kwargs=kw))
+        if not ok:
+            rac.fail(f"step-truncation {n_}", f"C16 responses {A.tolist()} (second row {eps:.1e} of the first), start {k0.tolist()}, step(1, {kw}): knobs {kn}, "
+                     f"truncated minimum-norm step gives {want.tolist()}", scr, "JacobianSolver.step")
     rac.section("scalings", "x_to_knobs / knobs_to_x and scaled_to_native / scaled_from_native are mutually inverse (1e-12 relative), "
-                "random weights 1e-3..1e3, bounds and rescale intervals", "200 quick / 3000 thorough", exhaustive=False)
+                "random weights 1e-3..1e3, bounds (floats, every third problem plain integers) and rescale intervals; also on integer-valued knob settings, and the "
+                "x-space limits mapped back are the knob limits", "200 quick / 3000 thorough", exhaustive=False)
     for n_ in range(200 if quick else 3000):
         if rac.out_of_time(0.8):
             break
@@ -153,6 +184,8 @@ def main():
         prob = G.rnd_problem(rac.rng, nk=nk, nt=1, fam="linear", limits=False, weights=False, max_step=False)
         prob["w"] = [10 ** rac.rng.uniform(-3, 3) if rac.rng.random() < 0.8 else None for _ in range(nk)]
         prob["lim"] = [[-rac.rng.uniform(1, 100), rac.rng.uniform(1, 100)] for _ in range(nk)]
+        if n_ % 3 == 0:
+            prob["lim"] = [[-rac.rng.randint(1, 100), rac.rng.randint(1, 100)] for _ in range(nk)]      # plain integers
         prob["kact"] = [True] * nk
         try:
             opt, d, act = build(prob)
@@ -167,13 +200,21 @@ def main():
         r2 = mf._knobs_to_x(mf._x_to_knobs(x))
         r3 = view._scaled_to_native(view._scaled_from_native(x))
         r4 = view._scaled_from_native(view._scaled_to_native(x))
+        kint = [rac.rng.randint(-9, 9) for _ in range(nk)]          # integer-valued knob settings, as a list of ints
+        r5 = mf._x_to_knobs(np.array(mf._knobs_to_x(kint), dtype=float))
+        xl = mf._get_x_limits()
+        r6 = np.concatenate([mf._x_to_knobs(np.array(xl[:, 0], dtype=float)), mf._x_to_knobs(np.array(xl[:, 1], dtype=float))])
+        lims = np.array([l[0] for l in prob["lim"]] + [l[1] for l in prob["lim"]], dtype=float)
         rac.case((json.dumps(prob["w"]), lo, hi), sample=dict(weights=prob["w"], rescale=(lo, hi + 0.1)))
-        for nm, a, b_ in (("x_to_knobs o knobs_to_x", r1, k), ("knobs_to_x o x_to_knobs", r2, x), ("to_native o from_native", r3, x), ("from_native o to_native", r4, x)):
+        for nm, a, b_ in (("x_to_knobs o knobs_to_x", r1, k), ("knobs_to_x o x_to_knobs", r2, x), ("to_native o from_native", r3, x), ("from_native o to_native", r4, x),
+                           ("x_to_knobs o knobs_to_x on integer knob values", r5, np.array(kint, dtype=float)), ("x_to_knobs of the x-space limits (vs the knob limits)", r6, lims)):
             # rounding is relative to the magnitudes involved: the native bounds are limits / weight
             span = max(max(abs(l[0]), abs(l[1])) / (1.0 if w_ is None else w_) for l, w_ in zip(prob["lim"], prob["w"]))
             if not np.allclose(a, b_, rtol=1e-10, atol=1e-13 * max(1.0, span)):
                 rac.fail(f"scaling {nm} {n_}", f"C16 {nm} is not the identity: {a} vs {b_} (weights {prob['w']}, rescale {(lo, hi + 0.1)})",
                          PRELUDE + G.SRC + f"prob = {prob!r}\nopt, d, act = build(prob)\nmf = opt._err\nk = np.array({k.tolist()!r})\nassert np.allclose(mf._x_to_knobs(mf._knobs_to_x(k)), k, rtol=1e-10)\n"
+                         f"kint = {kint!r}\nassert np.allclose(mf._x_to_knobs(np.array(mf._knobs_to_x(kint), dtype=float)), kint, rtol=1e-10), 'integer knob values'\n"
+                         f"xl = mf._get_x_limits()\nassert np.allclose(mf._x_to_knobs(np.array(xl[:, 0], dtype=float)), {[l[0] for l in prob['lim']]!r}, rtol=1e-10), 'lower limits'\n"
                          f"v = mf.get_merit_function(rescale_x=({lo!r}, {hi + 0.1!r}), check_limits=False)\nassert np.allclose(v._scaled_to_native(v._scaled_from_native(k)), k, rtol=1e-10)\nassert np.allclose(v._scaled_from_native(v._scaled_to_native(k)), k, rtol=1e-10)\n",
                          "MeritFunctionForMatch._x_to_knobs")
                 break
